@@ -51,13 +51,13 @@ func catch(r *Result, phase *string) {
 
 // OpCase describes one operator invocation (serialisable).
 type OpCase struct {
-	Op     string  `json:"op"`
-	Attrs  []Attr  `json:"attrs,omitempty"`
-	Inputs []*TJ   `json:"inputs"` // nil = absent optional input
-	NOut   int     `json:"n_out"`
-	Route  string  `json:"route"` // op | model | model-init (all non-nil inputs after the first as initializers)
-	Init   []bool  `json:"init,omitempty"` // per input: supply as initializer (model routes)
-	Trail  bool    `json:"trail,omitempty"` // drop trailing absent inputs instead of empty names
+	Op     string   `json:"op"`
+	Attrs  []Attr   `json:"attrs,omitempty"`
+	Inputs []*TJ    `json:"inputs"` // nil = absent optional input
+	NOut   int      `json:"n_out"`
+	Route  string   `json:"route"`           // op | model | model-init (all non-nil inputs after the first as initializers)
+	Init   []bool   `json:"init,omitempty"`  // per input: supply as initializer (model routes)
+	Trail  bool     `json:"trail,omitempty"` // drop trailing absent inputs instead of empty names
 	OutNm  []string `json:"out_names,omitempty"`
 }
 
